@@ -1308,16 +1308,12 @@ _bucket_setstate(Bucket *self, PyObject *state)
     ASSERT(len >= 0, "_bucket_setstate: items tuple has negative size", -1);
     len /= 2;
 
-    for (i = self->len; --i >= 0; ) {
-        DECREF_KEY(self->keys[i]);
-        DECREF_VALUE(self->values[i]);
-    }
-    self->len = 0;
-
-    if (self->next) {
-        Py_DECREF(self->next);
-        self->next = NULL;
-    }
+    /* Drop the current contents.  _bucket_clear detaches them before
+     * releasing them, so that finalizers of the old keys and values find an
+     * empty bucket rather than half-released vectors.
+     */
+    if (_bucket_clear(self) < 0)
+        return -1;
 
     if (len > self->size) {
         keys = BTree_Realloc(self->keys, sizeof(KEY_TYPE)*len);
